@@ -342,6 +342,18 @@ static void mode_cuts(vf::Ctx& c)
 		c.desc(vf::fmt("stream cut at %d of %d then closed: ", (int)cut, (int)stream.size()) + vf::vis(part.size() > 300 ? part.substr(part.size() - 300) : part, 400));
 		ConnResult r = runConn(c, srv, part, std::vector<size_t>(), c.rng.chance(0.3));
 		judgeTermination(c, r, "cut");
+		// whatever reaches the application from a stream that ended early is a request of the stream, whole: same method, path and body
+		{
+			std::vector<Seen> seen;
+			{ std::lock_guard<std::mutex> l(g_mu); seen = g_seen; }
+			if (seen.size() > exp.size()) c.fail("cut.more-requests-dispatched-than-sent", vf::fmt("%d", (int)seen.size()));
+			for (size_t i = 0; i < seen.size() && i < exp.size(); i++) {
+				if (seen[i].method != exp[i].method || seen[i].path != exp[i].path) c.fail("cut.dispatched-request-line-differs", vf::fmt("request %d: %s %s", (int)i + 1, vf::vis(seen[i].method).c_str(), vf::vis(seen[i].path, 80).c_str()));
+				if (seen[i].body != exp[i].body) c.fail("cut.dispatched-with-truncated-body", vf::fmt("request %d reached the application with %d of its %d body bytes", (int)i + 1, (int)seen[i].body.size(), (int)exp[i].body.size()));
+				for (auto& h : exp[i].headers) { auto it = seen[i].headers.find(h.first); if (it == seen[i].headers.end() || it->second != h.second) { c.fail("cut.dispatched-with-partial-headers", vf::fmt("request %d: header(%s)", (int)i + 1, h.first.c_str())); break; } }
+			}
+			if (seen.size()) c.count("cut_streams_with_a_dispatched_request");
+		}
 		ncuts++;
 	}
 	c.evals(ncuts);
